@@ -133,6 +133,11 @@ func (g *influxqlGroup) EndBatch(end edge.EndBatchMessage) (edge.Message, error)
 		return nil, nil
 	}
 	if g.rc == nil {
+		if g.batchSize != 0 && !g.n.n.ReduceCreater.IsEmptyOK {
+			// None of the points could be aggregated, e.g. the field is missing from all of them.
+			// The errors have been reported, a reducer that has not seen a point cannot emit.
+			return nil, nil
+		}
 		// Assume float64 type since we do not have any data.
 		if err := g.realizeReduceContext(reflect.Float64); err != nil {
 			return nil, err
